@@ -34,6 +34,12 @@ def run_case(cid, rng, workdir):
     # explicit exclusions inside .ff blocks (pure .ff layouts only: an .itp finalisation would turn them into edges)
     if case["layout"] == "ff" and rng.random() < 0.4:
         _add_block_exclusions(rng, case)
+    if rng.random() < 0.3:
+        from .C13 import relabel
+        case["graph"], _mode = relabel(rng, case["graph"])
+        if _mode == "str":
+            case["graph"], _mode = relabel(rng, case["graph"]) if False else (case["graph"], _mode)
+        bump(res, "relabelled_node_keys")
     ev = PC.evaluate(case, workdir)
     res["sig"] = sig_of([case["files"], case["graph"]])
     res["sample"] = case["descr"]
